@@ -48,3 +48,11 @@ From RS Require Import TransFacts2.
 Theorem C15_new_fast_inv : stmt_new_fast_inv.
 Proof. exact new_fast_inv. Qed.
 Print Assumptions C15_new_fast_inv.
+
+(** the transition optimisation as a whole: whatever finite sequence of its moves (moving a vehicle to the end of another
+    or of a new cycle; replacing a cycle by a 3-opt reordering) it performs from a valid transition, the result is a valid
+    transition over the same vehicles — which is exactly what the pipeline theorems assume of it ([trans_valid]) *)
+From RS Require Import TOptStmts TOptFacts.
+Theorem C15_optimiser_moves_keep_the_invariant : forall nw tours, stmt_topt_path_inv nw tours.
+Proof. exact topt_path_inv. Qed.
+Print Assumptions C15_optimiser_moves_keep_the_invariant.
